@@ -3,6 +3,8 @@ package main
 // Property definitions.
 
 import (
+	"fmt"
+	"sort"
 	"strings"
 
 	"golang.org/x/tools/go/ssa"
@@ -55,7 +57,52 @@ var c04Funcs = []string{
 	"lisperror.GetPosition", "lisperror.NewLispError", "lisperror.NewGoError", "(lisperror.LispError).ErrorValue", "(lisperror.LispError).Unwrap",
 	"(lisperror.LispError).Error", "(lisperror.LispError).Position",
 	"lib/call.call$1", "lib/call.call$2", "lib/call.call$3", "lib/call.call$4", "lib/call.call$5", "lib/call.call$6", "lib/call._recover",
-	"lib/core/nscore.Load$1", "lib/core/nscore.LoadInput$1",
+}
+
+// directBuiltins: every function or function literal of the module, outside lib/call, whose
+// signature is that of a builtin (func(context.Context, []MalType) (MalType, error)): these are
+// called by EVAL without the binder's recover wrapper, wherever and however they are created.
+func directBuiltins(c *CheckCtx) []*ssa.Function {
+	var out []*ssa.Function
+	seen := map[*ssa.Function]bool{}
+	var visit func(f *ssa.Function)
+	visit = func(f *ssa.Function) {
+		if f == nil || seen[f] {
+			return
+		}
+		seen[f] = true
+		sig := f.Signature
+		if sig.Recv() == nil && sig.Params().Len() == 2 && sig.Results().Len() == 2 &&
+			typeStr(sig.Params().At(0).Type()) == "context.Context" && typeStr(sig.Params().At(1).Type()) == "[]types.MalType" &&
+			typeStr(sig.Results().At(0).Type()) == "types.MalType" && typeStr(sig.Results().At(1).Type()) == "error" && len(f.Blocks) > 0 {
+			out = append(out, f)
+		}
+		for _, af := range f.AnonFuncs {
+			visit(af)
+		}
+	}
+	var paths []string
+	for path := range c.eng.spkgs {
+		paths = append(paths, path)
+	}
+	sort.Strings(paths)
+	for _, path := range paths {
+		if !strings.HasPrefix(path, modulePath) || strings.HasSuffix(path, "/lib/call") || path == modulePath+"/types" {
+			continue
+		}
+		sp := c.eng.spkgs[path]
+		var names []string
+		for n := range sp.Members {
+			names = append(names, n)
+		}
+		sort.Strings(names)
+		for _, n := range names {
+			if f, ok := sp.Members[n].(*ssa.Function); ok {
+				visit(f)
+			}
+		}
+	}
+	return out
 }
 
 func init() {
@@ -84,6 +131,12 @@ func runC04(c *CheckCtx) {
 	jobs := c.jobsFor(c04Funcs, func(f *ssa.Function) *Job {
 		return &Job{Fn: f, PanicMode: "obligation", TypeInv: true}
 	})
+	nb := 0
+	for _, f := range directBuiltins(c) {
+		jobs = append(jobs, &Job{Fn: f, PanicMode: "obligation", TypeInv: true})
+		nb++
+	}
+	c.note(fmt.Sprintf("%d functions with the builtin signature outside lib/call (called without the recover wrapper) are swept for panics, whatever their name", nb))
 	c.runJobs(jobs, func(o *Obligation) bool {
 		return strings.HasPrefix(o.Kind, "nopanic/") || o.Kind == "pre" || o.Kind == "typeinv" || o.Kind == "post" || strings.HasPrefix(o.Kind, "inv-")
 	})
